@@ -28,6 +28,7 @@ RULE = (
     "deterministic operation list on two fixed charts. Non-trivial iff the history has >= 3 operations "
     "and contains an operation on an absent instrument/difficulty or a failing query; distinct = "
     "distinct (chart, operation sequence)."
+    ' An observation walk that succeeded after parsing and raises after an operation counts as a change.'
 )
 ASSUMPTIONS = [
     "operations may raise (ValueError, KeyError for an absent key, TypeError for unhashable tracks): only "
